@@ -207,6 +207,12 @@ func (tr *Tr) storeLeaves(st *State, ls []leaf, reg, off *Term, v Val) {
 func (tr *Tr) allocRegion(st *State) *Term {
 	a := tr.get(st, "alloc")
 	tr.nonNil[a.id] = true
+	if base, _ := splitAdd(a); base != nil && base.Op == "var" {
+		if _, ok := tr.regionRank[a]; !ok {
+			tr.allocSeq++
+			tr.regionRank[a] = tr.allocSeq
+		}
+	}
 	tr.set(st, "alloc", tr.f.AddC(a, 1))
 	for _, k := range heapKeys {
 		es := heapElemSort(k)
@@ -219,7 +225,7 @@ func (tr *Tr) allocRegion(st *State) *Term {
 		cur := tr.inner(st, k, a)
 		za := tr.f.ConstArr(ArrS(S64, es), z)
 		if cur != za {
-			tr.assume(tr.f.Eq(cur, za), "unallocated memory is zero")
+			tr.assumes = append(tr.assumes, Assumption{T: tr.f.Eq(cur, za), Why: "unallocated memory is zero", Region: a})
 		}
 	}
 	return a
